@@ -187,27 +187,29 @@ type PackArg struct {
 }
 
 type PackOut struct {
-	Touched     bool                `json:"touched,omitempty"`
-	WriteCalls  int                 `json:"write_calls,omitempty"`
-	SetupErr    string              `json:"setup_err,omitempty"`
-	Err         string              `json:"err,omitempty"`
-	Illegal     bool                `json:"illegal,omitempty"`
-	Panic       string              `json:"panic,omitempty"`
-	Files       []string            `json:"files,omitempty"`
-	Size        int64               `json:"size"`
-	Entries     []tarx.Decoded      `json:"entries,omitempty"`
-	DecodeErr   string              `json:"decode_err,omitempty"`
-	SrcTree     map[string]fsx.Node `json:"src_tree,omitempty"`
-	UnpackErr   string              `json:"unpack_err,omitempty"`
-	UnpackIll   bool                `json:"unpack_illegal,omitempty"`
-	DstTree     map[string]fsx.Node `json:"dst_tree,omitempty"`
-	SourceDiff  []string            `json:"source_diff,omitempty"`
-	Resolved    map[string]string   `json:"resolved,omitempty"`    // archive name -> W-relative physical path of src/<name>
-	ParentPhys  map[string]string   `json:"parent_phys,omitempty"` // archive name -> W-relative physical path of the directory holding src/<name>
-	AbsRel      map[string]string   `json:"abs_rel,omitempty"`     // archive name -> W-relative form of an absolute link target
-	WriterErred bool                `json:"writer_erred,omitempty"`
-	Written     int                 `json:"written"`
-	SlugLen     int                 `json:"slug_len"`
+	Touched      bool                `json:"touched,omitempty"`
+	WriteCalls   int                 `json:"write_calls,omitempty"`
+	SetupErr     string              `json:"setup_err,omitempty"`
+	Err          string              `json:"err,omitempty"`
+	Illegal      bool                `json:"illegal,omitempty"`
+	Panic        string              `json:"panic,omitempty"`
+	Files        []string            `json:"files,omitempty"`
+	Size         int64               `json:"size"`
+	Entries      []tarx.Decoded      `json:"entries,omitempty"`
+	DecodeErr    string              `json:"decode_err,omitempty"`
+	SrcTree      map[string]fsx.Node `json:"src_tree,omitempty"`
+	UnpackErr    string              `json:"unpack_err,omitempty"`
+	UnpackIll    bool                `json:"unpack_illegal,omitempty"`
+	DstTree      map[string]fsx.Node `json:"dst_tree,omitempty"`
+	SourceDiff   []string            `json:"source_diff,omitempty"`
+	Resolved     map[string]string   `json:"resolved,omitempty"`      // archive name -> W-relative physical path of src/<name>
+	ParentPhys   map[string]string   `json:"parent_phys,omitempty"`   // archive name -> W-relative physical path of the directory holding src/<name>
+	AbsRel       map[string]string   `json:"abs_rel,omitempty"`       // archive name -> W-relative form of an absolute link target
+	ResolvedPerm map[string]uint32   `json:"resolved_perm,omitempty"` // regular entry -> permission bits of the file src/<name> physically resolves to
+	HopPhys      map[string]string   `json:"hop_phys,omitempty"`      // link entry -> W-relative place its own target names when every component BEFORE the last is followed the way the kernel does
+	WriterErred  bool                `json:"writer_erred,omitempty"`
+	Written      int                 `json:"written"`
+	SlugLen      int                 `json:"slug_len"`
 }
 
 type faultWriter struct {
@@ -368,12 +370,38 @@ func runPack(arg PackArg) (out PackOut) {
 		res, _ := fsx.Resolve(filepath.Join(W, "src", e.Name))
 		rel, _ := filepath.Rel(W, res)
 		out.Resolved[e.Name] = rel
+		if fi, err := os.Stat(res); err == nil && fi.Mode().IsRegular() {
+			if out.ResolvedPerm == nil {
+				out.ResolvedPerm = map[string]uint32{}
+			}
+			out.ResolvedPerm[e.Name] = uint32(fi.Mode().Perm())
+		}
 		pres, _ := fsx.Resolve(filepath.Dir(filepath.Join(W, "src", e.Name)))
 		prel, _ := filepath.Rel(W, pres)
 		out.ParentPhys[e.Name] = prel
 		if filepath.IsAbs(e.Linkname) {
 			arel, _ := filepath.Rel(W, filepath.Clean(e.Linkname))
 			out.AbsRel[e.Name] = arel
+		}
+		if e.Type == '2' && e.Linkname != "" {
+			full := e.Linkname
+			if !filepath.IsAbs(full) {
+				full = pres + "/" + full // not cleaned: '..' after a link must be applied to what the link names
+			}
+			full = strings.TrimRight(full, "/")
+			dirPart, last := filepath.Split(full)
+			var hop string
+			if last == "." || last == ".." || last == "" {
+				hop, _ = fsx.Resolve(full)
+			} else {
+				d, _ := fsx.Resolve("/" + strings.Trim(dirPart, "/"))
+				hop = filepath.Join(d, last)
+			}
+			if out.HopPhys == nil {
+				out.HopPhys = map[string]string{}
+			}
+			hrel, _ := filepath.Rel(W, hop)
+			out.HopPhys[e.Name] = hrel
 		}
 	}
 	if arg.Roundtrip {
